@@ -16,7 +16,7 @@ def floatNum : NumLike where
   sub a b := a - b
 
 /-- Exact amounts (integer cents): the ordered ring the conservation theorems are proved over. -/
-def intNum : NumLike where
+@[reducible] def intNum : NumLike where
   α := Int
   zero := 0
   gt a b := decide (a > b)
@@ -27,6 +27,16 @@ def intNum : NumLike where
   neg a := -a
   add a b := a + b
   sub a b := a - b
+
+@[simp] theorem intNum_zero : intNum.zero = (0 : Int) := rfl
+@[simp] theorem intNum_add (a b : Int) : intNum.add a b = a + b := rfl
+@[simp] theorem intNum_sub (a b : Int) : intNum.sub a b = a - b := rfl
+@[simp] theorem intNum_neg (a : Int) : intNum.neg a = -a := rfl
+@[simp] theorem intNum_abs (a : Int) : intNum.abs a = if a < 0 then -a else a := rfl
+@[simp] theorem intNum_gt (a b : Int) : intNum.gt a b = decide (a > b) := rfl
+@[simp] theorem intNum_lt (a b : Int) : intNum.lt a b = decide (a < b) := rfl
+@[simp] theorem intNum_ge (a b : Int) : intNum.ge a b = decide (a ≥ b) := rfl
+@[simp] theorem intNum_le (a b : Int) : intNum.le a b = decide (a ≤ b) := rfl
 
 /-- ASCII lower-casing (Python `str.lower` and JS `toLowerCase` agree with it on ASCII). -/
 def asciiLower (s : String) : String := s.map Char.toLower
